@@ -3,7 +3,7 @@ glyph-class bits), read from the compiled crate through the `verif::gpos::consts
 import gen_lean, vlib
 
 NAMES = ["attachMark", "attachCursive", "rightToLeft", "ignoreMarks", "ignoreFlags", "gpBaseGlyph", "gpMark",
-         "scratchHasGposAttachment", "upIgnorable"]
+         "scratchHasGposAttachment", "upIgnorable", "maxNestingLevel"]
 
 
 def read(shim):
